@@ -1581,7 +1581,7 @@ def gen_C18_translated(r, tier):
     out = _gen_C18_scaled(r, tier)
     for c in out:
         if "scale" not in c.meta and r.chance(0.35):
-            k = r.choice([8, 10]) if c.scalar == "f32" else r.choice([20, 27, 30])   # the circumcentre is only representable to ulp(offset): stay below the tolerance
+            k = r.choice([7, 8]) if c.scalar == "f32" else r.choice([20, 26, 27, 27])   # the circumcentre is only representable to ulp(offset): stay below the tolerance
             translate_case(c, 2.0 ** k * r.choice([1, -1, 3]), 2.0 ** k * r.choice([1, -1, 0]))
     return out
 PROPS["C18"]["gen"] = gen_C18_translated
@@ -1590,7 +1590,7 @@ def gen_C19_translated(r, tier):
     out = _gen_C19_prev(r, tier)
     for c in out:
         if "scale" not in c.meta and c.meta.get("style") not in ("cocirc-ulp", "cocirc-lattice") and r.chance(0.25):
-            k = r.choice([10, 12]) if c.scalar == "f32" else r.choice([20, 27, 30])
+            k = r.choice([7, 8]) if c.scalar == "f32" else r.choice([20, 26, 27, 27])
             translate_case(c, 2.0 ** k * r.choice([1, -1, 3]), 2.0 ** k * r.choice([1, -1, 0]))
     return out
 PROPS["C19"]["gen"] = gen_C19_translated
@@ -2561,21 +2561,25 @@ PROPS["C20"]["gen"] = gen_union(PROPS["C20"]["gen"], gen_C20_model(500, 1500))
 
 def representable_precision_ok(c):
     """circumcentres / interpolation weights are numbers the scalar type can only hold to ulp(coordinate): the numeric clauses of C18 / C19
-    (tolerances relative to the size of a face) are only demanded when the largest coordinate magnitude is at most 2^39 (f32: 2^10) times the
-    smallest non-zero difference of two coordinates of the case"""
-    vals = set()
+    (tolerances relative to the size of a face: 1e-7 / 1e-6, f32 1e-3) are only demanded when the largest coordinate magnitude is at most 2^28 (f32: 2^9) times the
+    smallest non-zero difference of two VERTEX coordinates of the case"""
+    verts, allv = set(), set()
     for o in c.ops:
-        for tok in o.split()[1:]:
+        t = o.split()
+        vertex_op = t[0] in ("ins", "insh", "adde", "addes") or t[0].startswith("bulk")
+        for tok in t[1:]:
             if tok.isdigit() and len(tok) > 12:
                 x = gen.from_bits(int(tok))
                 if x == x and abs(x) != float("inf"):
-                    vals.add(x)
-    vals = sorted(vals)
-    diffs = [b - a for a, b in zip(vals, vals[1:]) if b > a]
-    if not diffs or not vals:
+                    allv.add(x)
+                    if vertex_op:
+                        verts.add(x)
+    verts = sorted(verts)
+    diffs = [b - a for a, b in zip(verts, verts[1:]) if b > a]
+    if not diffs or not allv:
         return True
-    lim = 2.0 ** 10 if c.scalar == "f32" else 2.0 ** 39
-    return max(abs(v) for v in vals) <= min(diffs) * lim
+    lim = 2.0 ** 9 if c.scalar == "f32" else 2.0 ** 28
+    return max(abs(v) for v in allv) <= min(diffs) * lim
 
 for _p in ("C18", "C19"):
     def _mk(gprev):
@@ -2583,4 +2587,4 @@ for _p in ("C18", "C19"):
             return [c for c in gprev(r, tier) if representable_precision_ok(c)]
         return g
     PROPS[_p]["gen"] = _mk(PROPS[_p]["gen"])
-    PROPS[_p]["assumptions"] = PROPS[_p].get("assumptions", []) + ["numeric clauses are demanded only of cases whose largest coordinate magnitude is at most 2^39 (f32: 2^10) times the smallest non-zero coordinate difference (results are only representable to ulp(coordinate))"]
+    PROPS[_p]["assumptions"] = PROPS[_p].get("assumptions", []) + ["numeric clauses are demanded only of cases whose largest coordinate magnitude is at most 2^28 (f32: 2^9) times the smallest non-zero coordinate difference (results are only representable to ulp(coordinate))"]
